@@ -1,22 +1,44 @@
 // small native oracles: canonical JSON, file-name encoding, ...
+use serde::ser::{SerializeMap, SerializeSeq};
+use serde::{Serialize, Serializer};
 use serde_json::{json, Value};
 
-/// C11: serialise a JSON value (given as text, members in the given order) with the real CanonicalFormatter
+/// A JSON value whose object members are serialised in the order given (objects arrive as {"$obj": [[key, value], ...]}).
+pub struct Ordered<'a>(pub &'a Value);
+
+impl<'a> Serialize for Ordered<'a> {
+    fn serialize<S: Serializer>(&self, s: S) -> Result<S::Ok, S::Error> {
+        match self.0 {
+            Value::Object(m) if m.len() == 1 && m.contains_key("$obj") => {
+                let items = m["$obj"].as_array().unwrap();
+                let mut map = s.serialize_map(Some(items.len()))?;
+                for kv in items {
+                    map.serialize_entry(kv[0].as_str().unwrap(), &Ordered(&kv[1]))?;
+                }
+                map.end()
+            }
+            Value::Object(m) if m.len() == 1 && m.contains_key("$f64") => s.serialize_f64(m["$f64"].as_f64().unwrap()),
+            Value::Array(a) => {
+                let mut seq = s.serialize_seq(Some(a.len()))?;
+                for x in a {
+                    seq.serialize_element(&Ordered(x))?;
+                }
+                seq.end()
+            }
+            other => other.serialize(s),
+        }
+    }
+}
+
+/// C11: serialise values with the real CanonicalFormatter
 pub fn canon(sc: Value) -> Value {
     let mut outs = vec![];
-    for t in sc["texts"].as_array().unwrap() {
-        let text = t.as_str().unwrap();
-        let v: Result<serde_json::Value, _> = serde_json::from_str(text);
-        match v {
-            Err(e) => outs.push(json!({"parse_error": e.to_string()})),
-            Ok(v) => {
-                let mut buf = Vec::new();
-                let mut ser = serde_json::Serializer::with_formatter(&mut buf, olpc_cjson::CanonicalFormatter::new());
-                match serde::Serialize::serialize(&v, &mut ser) {
-                    Ok(()) => outs.push(json!({"hex": hex::encode(&buf)})),
-                    Err(e) => outs.push(json!({"error": e.to_string()})),
-                }
-            }
+    for v in sc["values"].as_array().unwrap() {
+        let mut buf = Vec::new();
+        let mut ser = serde_json::Serializer::with_formatter(&mut buf, olpc_cjson::CanonicalFormatter::new());
+        match Ordered(v).serialize(&mut ser) {
+            Ok(()) => outs.push(json!({"hex": hex::encode(&buf)})),
+            Err(e) => outs.push(json!({"error": e.to_string()})),
         }
     }
     json!({"outputs": outs})
